@@ -69,7 +69,7 @@ func distinctLegal(freed []uint64, n uint64) bool {
 
 func runDiff(b *harness.B, share, shares int, light bool) {
 	// A. free: every subset of {0..n-1}, in four orders
-	maxN := b.Pick(9, 10)
+	maxN := b.Pick(10, 12)
 	if light {
 		maxN = 6
 	}
